@@ -229,7 +229,7 @@ def main(tier):
             for (e, u, tf) in OPTS:
                 lines.append(f"render html {otok(e, u, tf)} {t}")
                 mlines.append(f"{kind}_payload {e} {u} {tf} {hx(s)}")
-        impl = vlib.run_lines(vh, lines)
+        impl = [x.split(" S")[0] for x in vlib.run_lines(vh, lines)]  # drop the slug-oracle section of `render html`
         model = vlib.run_lines(drv, mlines)
         agree = 0
         ncases = 0
